@@ -167,6 +167,12 @@ ASSEMBLY = [
     dict(name="heavy+intrinsic NC", obs="F2_charm", process="NC", pid=11, scheme="FFNS", nf=3, ZMq=(False, False, False), pto=1,
          chi="mixed"),
     dict(name="FFN0 NC", obs="FL_total", process="NC", pid=11, scheme="FFN0", nf=3, ZMq=(False, False, False), pto=2, chi="x"),
+    # the REAL eko interpolator (concrete grid, its own block structure): every basis function is handed to the convolution,
+    # for x anywhere in the grid (bulk, last intervals, on a node)
+    dict(name="light NC, real eko interpolator (7 nodes, degree 3, log)", obs="F2_light", process="NC", pid=11, scheme="ZM-VFNS", nf=3,
+         ZMq=(True, True, True), pto=1, chi="x", real_interp=dict(grid=[0.001, 0.01, 0.1, 0.3, 0.6, 0.85, 1.0], degree=3, log=True)),
+    dict(name="light NC, real eko interpolator (5 nodes, degree 2, lin)", obs="F2_light", process="NC", pid=11, scheme="ZM-VFNS", nf=3,
+         ZMq=(True, True, True), pto=0, chi="x", real_interp=dict(grid=[0.1, 0.3, 0.6, 0.85, 1.0], degree=2, log=False)),
 ]
 
 
@@ -189,9 +195,16 @@ def run_assembly(ctx, cell, P, x, Q2, m2c, tag, cvals=None):
     import yadism.coefficient_functions as cf
     from yadism.esf import conv, esf as esfmod
 
-    nodes = [0.01, 1.0]
-    basis = [GenericBasis(ctx, [0.01, 1.0], False, name=f"p{j}") for j in range(2)] if ctx is not None else [0, 1]
-    interp = cm.StubInterpolator(nodes, basis)
+    if cell.get("real_interp"):
+        from eko import interpolation as eint
+
+        ri = cell["real_interp"]
+        interp = eint.InterpolatorDispatcher(eint.XGrid(ri["grid"], ri["log"]), ri["degree"], mode_N=False)
+        basis = list(interp)
+    else:
+        nodes = [0.01, 1.0]
+        basis = [GenericBasis(ctx, [0.01, 1.0], False, name=f"p{j}") for j in range(2)] if ctx is not None else [0, 1]
+        interp = cm.StubInterpolator(nodes, basis)
     cc = cm.make_coupling(P, cell["process"], cell["pid"])
     cfg = cm.make_configs(cc, pto=cell["pto"], pto_evol=min(cell["pto"], 2), scheme=cell["scheme"], nf_ff=cell["nf"],
                           ZMq=cell["ZMq"], m2hq=(m2c, 25.0, 30000.0), threshold=cell["nf"], interpolator=interp, sv_manager=NoSV())
@@ -317,6 +330,37 @@ def replay_conv_numeric(args):
         log_evaluate_x = staticmethod(lambda u, areas: F(u))
 
     rsl = RSL(R if shape[0] else None, Sg if shape[1] else None, L if shape[2] else None, args=dict(reg=[0.1], sing=[0.2], loc=[0.3]))
+    lab = args.get("label") or ""
+    if lab.startswith(("lower limit", "upper limit", "epsabs", "break points")):
+        # claims about what is handed to the quadrature are replayed by recording the real call (a numeric comparison of the
+        # integral cannot resolve a 1e-10 shift of a border)
+        calls = []
+
+        class RecScipy:
+            class integrate:
+                @staticmethod
+                def quad(f, a, b, args=(), epsabs=None, points=None, **kw):
+                    calls.append(dict(a=a, b=b, epsabs=epsabs, points=points))
+                    return 0.0, 0.0
+
+        with npshim.patched((conv, "interpolation", FakeInterp), (conv, "scipy", RecScipy)):
+            try:
+                conv.convolution(rsl, x, PDF())
+            except Exception as e:  # noqa
+                return True, f"conv.convolution raised {e!r}"
+        if not calls:
+            return False, "no quadrature call at this point"
+        eps = conv.eps_integration_border
+        lo, up = x * (1 + eps), min(x / bs[0], 1.0) * (1 - eps)
+        bad = []
+        for c in calls:
+            if lab.startswith("lower") and abs(c["a"] - lo) > 1e-14 * max(1.0, abs(lo)):
+                bad.append(f"lower limit {c['a']!r}, documented x(1+eps) = {lo!r}")
+            if lab.startswith("upper") and abs(c["b"] - up) > 1e-14 * max(1.0, abs(up)):
+                bad.append(f"upper limit {c['b']!r}, documented min(x/b_min,1)(1-eps) = {up!r}")
+            if lab.startswith("epsabs") and c["epsabs"] != conv.eps_integration_abs:
+                bad.append(f"epsabs {c['epsabs']!r}")
+        return (True, f"shape {shape}, x={x}, borders {bs}: {bad[:2]}") if bad else (False, "limits as documented")
     with npshim.patched((conv, "interpolation", FakeInterp)):
         try:
             got, _ = conv.convolution(rsl, x, PDF())
@@ -422,7 +466,7 @@ def run(chk, only=None):
                                   replay=lambda m, ctx=ctx, shape=shape, mode_log=mode_log, n=n_areas: ("conv", _conv_args(ctx, m, shape, mode_log, n)))
 
                     def rp_for(lab, ctx=ctx, shape=shape, mode_log=mode_log, n=n_areas):
-                        return lambda m: ("conv", _conv_args(ctx, m, shape, mode_log, n))
+                        return lambda m: ("conv", dict(_conv_args(ctx, m, shape, mode_log, n), label=lab))
 
                     harness.prove_pairs(chk, f"{cname}/path{i}", prs, facts, rp_for, lambda lab: f"conv:{lab.split('(')[0][:40]}",
                                         sample={"case": cname, "claims": [l for l, _, _ in prs][:8]})
